@@ -414,6 +414,8 @@ def frame_conformance(rnd, rounds=120):
         idc, pc = rnd.choice([("id", "parent_id"), ("node", "mother")])
         data = {({"id": idc, "parent_id": pc}.get(k, k)): v for k, v in data.items()}
         nm = {"id": idc, "parent_id": pc, "time": "t", "pos": rnd.choice([["y", "x"], ["x", "y"]]), "c": "c"}
+        # row labels: default, permuted, or with gaps (a sorted / filtered table)
+        index = rnd.choice([None, None, rnd.sample(range(rows), rows), rnd.sample(range(0, 12), rows)])
         out = []
         for model in (False, True):
             b = CSVTracksBuilder()
@@ -423,9 +425,9 @@ def frame_conformance(rnd, rounds=120):
                     if model:
                         importer.install_csv()
                         src = importer._Frame({k: [importer.NA if (isinstance(v, float) and v != v) else v for v in vs]
-                                               for k, vs in data.items()})
+                                               for k, vs in data.items()}, index)
                     else:
-                        src = pd.DataFrame(data)
+                        src = pd.DataFrame(data, index=index)
                     try:
                         b.load_source(src, dict(nm), None)
                     finally:
@@ -438,7 +440,7 @@ def frame_conformance(rnd, rounds=120):
                 out.append(("raised", type(e).__name__))
         n += 1
         if out[0] != out[1]:
-            return n, f"table {data} map {nm}: pandas -> {out[0]}, model -> {out[1]}"
+            return n, f"table {data} index {index} map {nm}: pandas -> {out[0]}, model -> {out[1]}"
     return n, None
 
 
